@@ -547,7 +547,17 @@ func ruleR10_3(p *Program, r *Report) {
 				return true
 			}
 			f, ok := branchFact(br)
-			if !ok || f.Y != nil || f.Op != token.EQL {
+			if !ok {
+				return true
+			}
+			// the edge on which the sticky error is known non-nil is a failing path whatever
+			// return statement it shares with the others (switch-form Flush, one `return w.err`)
+			if f.Op == token.NEQ && f.Y != nil && isNil(f.Y) && isErrorType(f.X.Type()) {
+				if _, sel, ok := fieldLoad(f.X); ok && !storesNilTo(fn, sel) {
+					return false
+				}
+			}
+			if f.Y != nil || f.Op != token.EQL {
 				return true
 			}
 			if _, sel, ok := fieldLoad(f.X); ok && sel == ".closed" {
@@ -1055,4 +1065,20 @@ func isPureHandOver(h *ssa.Function) bool {
 		}
 	}
 	return n == 1
+}
+
+// storesNilTo reports whether fn stores a nil constant into a field with selector sel.
+func storesNilTo(fn *ssa.Function, sel string) bool {
+	for _, b := range fn.Blocks {
+		for _, in := range b.Instrs {
+			st, ok := in.(*ssa.Store)
+			if !ok {
+				continue
+			}
+			if _, s2 := accessPath(st.Addr); s2 == sel && isNil(st.Val) {
+				return true
+			}
+		}
+	}
+	return false
 }
